@@ -215,4 +215,21 @@ def opGreedy (j : Json) : M Json := do
       ("certificate", if ok then Json.bool (allF fun v => decide (lapApply G deg s.get v = D.get v) && decide (0 ≤ D.get v)) else Json.null),
       ("arg", jVec deg), ("graph", jGraph G)]
 
+/-- is_winnable / EWD asked again on the same graph object after edges were added -/
+def opWinnableHist (j : Json) : M Json := do
+  let n ← getNat j "n"
+  match ← graphOf j n with
+  | .error _ => pure err
+  | .ok G =>
+    let deg ← vecOf n (← getInts j "deg")
+    let adds ← edgesOf (getArrD j "adds")
+    let verdicts (G : Graph n) : Json :=
+      Json.arr #[jOptB (winnableOpt G bigFuel deg), jOptB (winnablePlain G bigFuel deg)]
+    let mut g := G
+    let mut outs : Array Json := #[verdicts G]
+    for (a, b, k) in adds do
+      g := gapply g (.add a b k)
+      outs := outs.push (verdicts g)
+    pure (Json.mkObj [("verdicts", Json.arr outs), ("graph", jGraph g)])
+
 end Drv
